@@ -567,3 +567,53 @@ class ObjBag:
 
     def _len(self):
         return SymSet(self.ids)._len()
+
+
+# ---- list-like operations on an ObjBag (positions are abstracted: position k of the current version of the list is pick_v(k)) ------
+def _bag_pick(self):
+    st = cur()
+    ver = self.ids.sexpr()
+    memo = st.ghost.setdefault("bag_pick", {})
+    if ver not in memo:
+        st.n += 1
+        f = z3.Function("pick!%d" % st.n, I, I)
+        n = SymSet(self.ids)._len()
+        p, q = z3.Ints("p!bp q!bp")
+        st.assume(z3.ForAll([p], z3.Implies(z3.And(p >= 0, p < n.t), z3.Select(self.ids, f(p)))))
+        st.assume(z3.ForAll([p, q], z3.Implies(z3.And(p >= 0, q >= 0, p < n.t, q < n.t, p != q), f(p) != f(q))))
+        memo[ver] = (f, n)
+    return memo[ver]
+
+
+def _bag_at(self, k):
+    f, n = _bag_pick(self)
+    return HObj(self.cls, self.schema, f(z3num(k)), self.clsname)
+
+
+def _bag_getitem(self, idx):
+    f, n = _bag_pick(self)
+    cur().safety("list-index", z3.And(z3num(idx) >= 0, z3num(idx) < n.t))
+    return HObj(self.cls, self.schema, f(z3num(idx)), self.clsname)
+
+
+def _bag_pop(self, idx=-1):
+    f, n = _bag_pick(self)
+    st = cur()
+    if isinstance(idx, int) and idx < 0:
+        raise Unsupported("pop from the end of an abstract list")
+    st.safety("pop-index", z3.And(z3num(idx) >= 0, z3num(idx) < n.t))
+    oid = f(z3num(idx))
+    self.ids = z3.Store(self.ids, oid, z3.BoolVal(False))
+    return HObj(self.cls, self.schema, oid, self.clsname)
+
+
+def _bag_add(self, other):
+    return ObjBag(z3.Map(_OR, self.ids, ObjBag.ids_of(other)), self.cls, self.schema, self.clsname)
+
+
+ObjBag._at = _bag_at
+ObjBag._getitem = _bag_getitem
+ObjBag.pop = _bag_pop
+ObjBag.__add__ = _bag_add
+ObjBag.__radd__ = lambda self, other: _bag_add(self, other)
+ObjBag._truth = lambda self: SymSet(self.ids)._truth()
